@@ -31,7 +31,7 @@ def queries(tier, prop='C03'):
 
     def add(e, fl, budget=120, **cfg):
         c = {'FLAV': fl}; c.update(cfg)
-        q = dict(entry='q_' + e, cfg=c, unwind=24, unwindset=UW, budget=budget, ub=ub, nofunc=ub)
+        q = dict(entry='q_' + e, cfg=c, unwind=24, unwindset=UW, budget=budget, ub=ub, nofunc=ub, solver=['cadical', 'minisat'])
         if e == 'v_assign_own_alt': q['kf_only'] = 'C03_variant_assign_own_alternative'   # the whole query lies inside the known-finding region
         if e.endswith('_hist'): q['object_bits'] = 14
         out.append(q)
